@@ -269,7 +269,7 @@ func c06Judge(op, impl, model string) Verdict {
 	if len(ip) > 1 && ip[1] != "" {
 		v.OracleFail = ip[1]
 		v.Sig = name + ":" + strings.Join(strings.Fields(ip[1])[:3], "-")
-		if strings.HasPrefix(ip[1], "NULLINPUT") {
+		if strings.HasPrefix(ip[1], "NULLINPUT") && !strings.Contains(ip[1], "; ") {
 			v.Sig = "jdec:null-accepted"
 		}
 	}
@@ -320,6 +320,9 @@ func (r *Rng) jsonMap(depth int) map[string]interface{} {
 			k = r.jsonStr()
 		}
 		m[k] = r.jsonVal(depth)
+	}
+	if depth == 0 && r.P(3) && r.Bool() {
+		r.enlarge(m, &jsonShape)
 	}
 	return m
 }
@@ -400,6 +403,10 @@ func c06Gen(r *Rng, n int) []string {
 			if len(t) > 1 {
 				t = t[:r.Intn(len(t))]
 			}
+		}
+		if r.P(6) {
+			// white space that is Unicode space but not JSON white space
+			t = r.Pick([]string{"\v", "\f", "\u00a0", "\u0085", "\u2028", "\u3000", " \f "}) + t
 		}
 		ops = append(ops, "jdec "+encStr(t))
 		if r.P(50) {
